@@ -141,7 +141,7 @@ def table():
         if det and tgt not in det and tgt in last:
             kinds.append('target %s missed' % tgt)
         if m.get('benign'):
-            caught = ('**FALSE ALARM**: ' + ', '.join(det)) if det else 'none of %d checks (as it should be)' % len(last)
+            caught = ('**FALSE ALARM**: ' + ', '.join(det)) if det else ('none of %d checks (as it should be)' % len(last) if last else 'not run yet')
         else:
             caught = ', '.join(det) or '**missed**'
         rows.append('| %s | %s | %s | %s | %s | %s |' % (n, m.get('property'), m.get('summary', '')[:110].replace('|', '/'),
